@@ -438,6 +438,9 @@ def run(run, model):
     run.try_rule(c03.r03_11, model)
     run.try_rule(r17_15, model)
     run.try_rule(r17_16, model)
+    # the call forms agree only if `Self` is instantiated under every type former of a trait method's signature (shared with C07 R07.2)
+    from rules import c07 as _c07
+    run.try_rule(_c07.r07_2, model, None, "C17")
     from rules import c09
     run.rule("R17.5", "the call forms are emitted alike in effect position: static calls (ECall) and dyn calls (EDynCall) both become a Go "
                       "statement when their value is unused (shared with C09 R09.6)")
